@@ -68,7 +68,8 @@ def gen_case(rng: random.Random, k: int) -> Dict[str, Any]:
     steps = rng.randint(3, 24)
     timeout = rng.choice([0, 1, dt - 1, dt, dt + 1, 2 * dt, 5 * dt + 1, 600])
     timeout = max(0, timeout)
-    env = w.env._replace(config=w.env.config._replace(sim=w.env.config.sim._replace(request_cancel_time_seconds=timeout)))
+    env = w.env._replace(config=w.env.config._replace(sim=w.env.config.sim._replace(
+        request_cancel_time_seconds=timeout, start_time=SimTime.build(t0), end_time=SimTime.build(t0 + steps * dt), timestep_duration_seconds=dt)))
     sim = w.sim0._replace(sim_time=SimTime.build(t0), sim_timestep_duration_seconds=dt)
     lazy = rng.random() < 0.5
     os.makedirs(WORK, exist_ok=True)
@@ -77,6 +78,13 @@ def gen_case(rng: random.Random, k: int) -> Dict[str, Any]:
         # ---------------- request file ----------------
         n_req = rng.choice([0, 1, 3, 8, 20, 40])
         deps = _times(rng, t0, dt, steps, n_req)
+        in_order = True
+        if n_req >= 2 and rng.random() < 0.25:
+            # a file that is not sorted by departure time: a few rows displaced
+            for _ in range(rng.randint(1, 3)):
+                x = deps.pop(rng.randrange(len(deps)))
+                deps.insert(rng.randrange(len(deps) + 1), x)
+            in_order = deps == sorted(deps)
         nums = rng.sample(range(10000), n_req)
         fleet_col = with_fleets or rng.random() < 0.2
         req_rows = []
@@ -231,9 +239,9 @@ def gen_case(rng: random.Random, k: int) -> Dict[str, Any]:
                 pass
         rec = {
             "op": "timed", "id": f"t{k}", "sim": sim_enc, "parent": n.parent_table(), "timeout": timeout, "fleets": bool(env.fleet_ids),
-            "rows": model_rows, "prices": model_prices, "names": names, "picks": picks, "obs": obs, "raised": raised,
+            "rows": model_rows, "inOrder": in_order, "prices": model_prices, "names": names, "picks": picks, "obs": obs, "raised": raised,
             "meta": {"t0": t0, "dt": dt, "steps": steps, "lazy": lazy, "defaults": defaults, "key_col": key_col, "search_res": search_res,
-                     "keys": keys, "n_req": n_req, "n_price": len(model_prices)},
+                     "keys": keys, "n_req": n_req, "in_order": in_order, "n_price": len(model_prices)},
         }
         return rec
     finally:
@@ -245,7 +253,7 @@ def shape_of(rec: Dict[str, Any], out: Dict[str, Any]) -> List[tuple]:
     shapes = set()
     n_add = sum(len(o["adds"]) for o in rec["obs"])
     n_can = sum(len(o["cancels"]) for o in rec["obs"])
-    shapes.add(("req", m["lazy"], rec["fleets"], min(n_add, 3), min(n_can, 3), rec["timeout"] <= m["dt"], m["n_req"] - n_add > 0))
+    shapes.add(("req", m["lazy"], rec["fleets"], min(n_add, 3), min(n_can, 3), rec["timeout"] <= m["dt"], m["n_req"] - n_add > 0, m["in_order"]))
     kinds = set()
     for key in m["keys"]:
         if key.startswith("s") and len(key) == 4:
